@@ -139,6 +139,10 @@ class FsModels:
         fs = self.fs(eng)
         fs.log.append((what, p))
         eng.event("fs:" + what, path=p, fs=fs.snapshot())
+        hook = getattr(self.spec, "on_fs_effect", None)
+        if hook is not None:
+            # crash point: the process may be killed right after this (atomic, durable) effect
+            hook(eng, what, p, len(fs.log))
 
     def makedirs(self, eng, args, kwargs, node):
         fs = self.fs(eng)
